@@ -173,7 +173,7 @@ META = dict(
         'ordering of execution (the queue is an abstract multiset; C11 claims none), resume<bool> / resume(&&) / run(async&&) (one-line forwarders of the '
         'covered functions; resume<bool> is executed inside run_async_stopped), enqueue_awaiter::await_ready/await_suspend/await_resume (forward to the '
         'wrapped awaiter), jobs that throw out of run_detached (std::terminate by design), concurrent stop() with destruction from another thread (misuse), '
-        'a worker() called by hand on a foreign thread (leaves the current-pool pointer set), hardware_concurrency() == 0 (constructor then builds a pool '
+        'a thread that called the public worker() by hand (it is not in the worker list: stop() / ~thread_pool do not wait for it, it re-locks the mutex of a possibly destroyed pool after its job - seen natively as a hang; its current-pool pointer is never restored), hardware_concurrency() == 0 (constructor then builds a pool '
         'without workers: submissions wait until stop() cancels them). Bounded: resume_sp_stopped drives the real closures for suspend points of 0..4 '
         'coroutines (its unbounded counterpart resume_sp_fwd has the closure abstract).'),
     technique=('CBMC 6.11 code contracts + loop contracts enforced via goto-instrument --dfcc on the C translation of the clang IR of thread_pool.h (pool level, '
